@@ -9,3 +9,17 @@ pub mod driver;
 pub mod shrink;
 pub mod stats;
 pub mod pristine;
+
+/// Which build configuration of regress this simulator was linked against (see the
+/// `cfg-*` features in Cargo.toml); recorded in replay files so that `./check replay`
+/// picks the matching binary.
+pub fn build_name() -> &'static str {
+    match (cfg!(feature = "cfg-utf16"), cfg!(feature = "cfg-index"), cfg!(feature = "cfg-safe")) {
+        (false, false, false) => "default",
+        (true, false, false) => "utf16",
+        (false, true, false) => "index",
+        (false, false, true) => "safe",
+        (true, true, true) => "all",
+        _ => "mixed",
+    }
+}
